@@ -39,7 +39,7 @@ func record(test string, res *pnode.Result) {
 			cls = append(cls, "replay-exact-hrs")
 		}
 	}
-	lib.Case(test, lib.FP(res.History.Heights, res.History.Txs, res.History.Salted, res.History.AddValAt, res.History.ParamAt, res.History.RetainAt,
+	lib.Case(test, lib.FP(res.History.Heights, res.History.Txs, res.History.Salted, res.History.AddValAt, res.History.ParamAt, res.History.RetainAt, res.History.RetainDelta,
 		res.CrashIndex, res.Crashes, res.CutAt-res.HeadSynced), nontrivial, cls...)
 	if nontrivial && lib.WantSample(test) {
 		var sigs []string
